@@ -116,6 +116,93 @@ def r16_3(ctx, counts) -> RuleResult:
     return res
 
 
+def r16_5(ctx, counts) -> RuleResult:
+    """Closure precedence and context snapshot."""
+    model: Model = ctx.model
+    res = RuleResult(
+        'R16.5', 'CLOSURE-PRECEDENCE / CONTEXT-SNAPSHOT',
+        '(a) When an inline function is called, its captured variables override the variables '
+        'of the calling context (lexical scoping): in _InlineFunction.__call__ the closure '
+        '`self.variables` is applied onto a copy of the context variables with '
+        '`.update(self.variables)` or as the LAST operand of a dict merge '
+        '(`{**ctx.variables, **self.variables}` / `ctx.variables | self.variables`), never the '
+        'other way round. (b) A function item that binds a dynamic context '
+        '(`<item>.context = …` in the evaluate of "#" and of fn:function-lookup) binds a copy '
+        '(`copy(context)`), not the live context whose focus moves on.')
+    cls = model.find_class('_InlineFunction')
+    call = cls.methods.get('__call__')
+    if call is None:
+        raise AnalysisError('_InlineFunction.__call__ vanished')
+    me = call.params()[0]
+    n = 0
+    for x in walk_local(call.node):
+        # update form
+        if isinstance(x, ast.Call) and isinstance(x.func, ast.Attribute) \
+                and x.func.attr == 'update' and stmt_text(x.func.value).endswith('.variables') \
+                and x.args:
+            n += 1
+            a = stmt_text(x.args[0])
+            recv = stmt_text(x.func.value)
+            res.instances.append(f'{call.key}: {recv}.update({a})')
+            if a == f'{me}.variables' and not recv.startswith(me + '.'):
+                res.ok()
+            elif recv == f'{me}.variables':
+                res.fail(finding('R16.5', call, x, 'closure updated from the caller',
+                                 f'`{stmt_text(x)[:60]}` writes the caller\'s variables into the '
+                                 f'closure: the captured bindings are overridden'))
+        # merge forms
+        if isinstance(x, ast.Dict) and any(k is None for k in x.keys):
+            parts = [stmt_text(v) for k, v in zip(x.keys, x.values) if k is None]
+            if f'{me}.variables' in parts:
+                n += 1
+                res.instances.append(f'{call.key}: dict merge {parts}')
+                if parts[-1] == f'{me}.variables':
+                    res.ok()
+                else:
+                    res.fail(finding('R16.5', call, x, 'closure merged first',
+                                     f'`{stmt_text(x)[:60]}`: the captured variables are merged '
+                                     f'BEFORE the caller\'s, so a variable of the calling scope '
+                                     f'with the same name replaces the captured one (dynamic '
+                                     f'instead of lexical scoping)'))
+        if isinstance(x, ast.BinOp) and isinstance(x.op, ast.BitOr) \
+                and f'{me}.variables' in (stmt_text(x.left), stmt_text(x.right)):
+            n += 1
+            if stmt_text(x.right) == f'{me}.variables':
+                res.ok()
+            else:
+                res.fail(finding('R16.5', call, x, 'closure merged first',
+                                 f'`{stmt_text(x)[:60]}`: captured variables lose to the '
+                                 f'caller\'s'))
+    if n == 0:
+        res.fail(finding('R16.5', call, call.node, 'closure not applied',
+                         'the captured variables are never applied to the call context'))
+    counts['closure_applications'] = n
+    # (b) context snapshot
+    k = 0
+    for f in model.all_functions():
+        for x in walk_local(f.node):
+            if isinstance(x, ast.Assign) and len(x.targets) == 1 \
+                    and isinstance(x.targets[0], ast.Attribute) and x.targets[0].attr == 'context' \
+                    and isinstance(x.targets[0].value, ast.Name) \
+                    and x.targets[0].value.id not in ('self', 'self_'):
+                v = stmt_text(x.value)
+                if v in ('None',):
+                    continue
+                k += 1
+                res.instances.append(f'{f.key}: {stmt_text(x)[:60]}')
+                in_dyn = f.name.startswith(('evaluate', 'select'))
+                if v.startswith('copy(') or not in_dyn:
+                    res.ok()
+                else:
+                    res.fail(finding('R16.5', f, x, f'{stmt_text(x.targets[0])} alias',
+                                     f'`{stmt_text(x)[:60]}` binds the live dynamic context to '
+                                     f'the function item: when the item is called after the '
+                                     f'focus has moved on (e.g. /root/* ! name#0 collected and '
+                                     f'called later) it sees the wrong context item'))
+    counts['context_bindings'] = k
+    return res
+
+
 def run(ctx) -> dict:
     counts: dict[str, int] = {}
     r2 = r05_1(ctx, counts, only=set(ITEM_CODE), rule='R05.1')
@@ -124,7 +211,7 @@ def run(ctx) -> dict:
                'function-item code: ' + ', '.join(ITEM_CODE) + '. ' + r2.text)
     r52 = r05_2(ctx, counts)
     r52.title = 'PARAMETER-SCOPE (R16.4 = R05.2)'
-    results = [r16_1(ctx, counts), r2, r16_3(ctx, counts), r52]
+    results = [r16_1(ctx, counts), r2, r16_3(ctx, counts), r52, r16_5(ctx, counts)]
     return {
         'results': results, 'counts': counts,
         'explanation':
